@@ -17,6 +17,7 @@ import (
 
 	"github.com/btcsuite/btcd/btcec/v2"
 	"github.com/lightninglabs/pool/clientdb"
+	"github.com/lightninglabs/pool/order"
 	"github.com/lightninglabs/pool/sidecar"
 )
 
@@ -73,6 +74,13 @@ func c15Vary(r *Run, prev *sidecar.Ticket) *sidecar.Ticket {
 	case 1:
 		t.Execution = nil
 	}
+	// updates into a terminal state (completed / canceled) keep the order
+	// part, so that a bid template stored with the ticket is cleaned up
+	if prev.Order != nil && rng.Intn(3) == 0 {
+		t.Order = prev.Order
+		t.State = []sidecar.State{sidecar.StateCompleted, sidecar.StateCanceled}[rng.Intn(2)]
+		r.Count("store/terminal-update")
+	}
 	switch {
 	case prev.Execution != nil && t.Execution == nil:
 		r.Count("store/execution-removed")
@@ -90,10 +98,28 @@ func c15Vary(r *Run, prev *sidecar.Ticket) *sidecar.Ticket {
 
 // c15StoreStep is one step of a store history (also the replay format).
 type c15StoreStep struct {
-	Op  string `json:"op"`            // add | upd | reopen
+	Op  string `json:"op"`            // add | addbid | upd | reopen
 	Hex string `json:"hex,omitempty"` // binary form of the ticket
 	// NoKey: the ticket is written without its offer sign key (refused)
 	NoKey bool `json:"nokey,omitempty"`
+	// Nonce (addbid): nonce of the bid whose template is stored with the ticket
+	Nonce string `json:"nonce,omitempty"`
+}
+
+// c15MakeBid builds a storable bid with the given nonce.
+func c15MakeBid(nonce order.Nonce) *order.Bid {
+	kit := order.NewKit(nonce)
+	kit.Version = order.VersionSidecarChannel
+	kit.State = order.StateSubmitted
+	kit.FixedRate = 100
+	kit.Amt = 1_000_000
+	kit.Units = order.NewSupplyFromSats(kit.Amt)
+	kit.UnitsUnfulfilled = kit.Units
+	kit.MinUnitsMatch = 1
+	kit.MaxBatchFeeRate = 253
+	kit.LeaseDuration = 2016
+	kit.ChannelType = order.ChannelTypeScriptEnforced
+	return &order.Bid{Kit: *kit}
 }
 
 // c15StoreGen generates one history: two ids x two offer keys, 6-13 writes.
@@ -132,14 +158,25 @@ func c15StoreGen(r *Run) []c15StoreStep {
 		switch {
 		case prev == nil && rng.Intn(8) > 0:
 			op = "add"
+			if rng.Intn(3) == 0 {
+				op = "addbid" // ticket stored together with a bid template
+			}
 		case prev != nil && rng.Intn(10) == 0:
 			op = "add" // refused: exists
 		}
-		if rng.Intn(12) == 0 {
-			steps = append(steps, c15StoreStep{Op: op, Hex: bin(t), NoKey: true})
+		nonceHex := ""
+		if op == "addbid" {
+			var n order.Nonce
+			rng.Read(n[:])
+			nonceHex = decHex(n[:])
+			// what the store keeps: the order part is replaced
+			t.Order = &sidecar.Order{BidNonce: n}
 		}
-		steps = append(steps, c15StoreStep{Op: op, Hex: bin(t)})
-		if (op == "add") == (prev == nil) {
+		if rng.Intn(12) == 0 {
+			steps = append(steps, c15StoreStep{Op: op, Hex: bin(t), NoKey: true, Nonce: nonceHex})
+		}
+		steps = append(steps, c15StoreStep{Op: op, Hex: bin(t), Nonce: nonceHex})
+		if (op != "upd") == (prev == nil) {
 			cur[k] = t // the write succeeds
 		}
 		if rng.Intn(6) == 0 {
@@ -269,12 +306,29 @@ func c15StoreExec(r *Run, steps []c15StoreStep) {
 		if st.NoKey {
 			t.Offer.SignPubKey = nil
 		}
-		if st.Op == "add" {
+		opLine := st.Op + " " + decFmtTicket(t)
+		switch st.Op {
+		case "add":
 			err = db.AddSidecar(t)
-		} else {
+		case "addbid":
+			var n order.Nonce
+			copy(n[:], decUnhex(st.Nonce))
+			opLine += " " + decHex(n[:])
+			err = db.AddSidecarWithBid(t, c15MakeBid(n)) // replaces t.Order
+			if err == nil {
+				r.Count("store/addbid=ok")
+				if tpl, terr := db.SidecarBidTemplate(t); terr != nil || tpl == nil {
+					bad("the bid template stored with AddSidecarWithBid cannot be read back")
+					return
+				}
+			}
+		default:
 			err = db.UpdateSidecar(t)
+			if err == nil && t.State.IsTerminal() && t.Order != nil {
+				r.Count("store/terminal-update-ok")
+			}
 		}
-		emit(st.Op+" "+decFmtTicket(t), c15StoreErr(err))
+		emit(opLine, c15StoreErr(err))
 		r.Count("store/" + st.Op + "=" + strings.Fields(c15StoreErr(err))[0])
 		if st.NoKey {
 			continue
